@@ -170,4 +170,116 @@ def exW : World where
     | _, d => .err (LErr.leaf "TypeLoadError" d)
   scalarDump := fun _ x => .ok x
 
+theorem exW_err {s : Bool} {name : String} {d : Val} {e : LErr}
+    (h : exW.scalarLoad s name d = .err e) : e = LErr.leaf "TypeLoadError" d := by
+  simp only [exW] at h
+  split at h <;> simp_all
+
+/-- the hypotheses on the leaves are satisfiable -/
+example : LeafReportsInput exW := fun s name d e h => by
+  rw [exW_err h]; exact ⟨rfl, rfl, rfl⟩
+example : LeafNotGroup exW := fun s name d e h => by
+  rw [exW_err h]; simp [LErr.leaf, LErr.cls]
+example : NoneLeafSpec exW := fun s d => by
+  cases d <;> simp [exW, Val.isNone]
+
+/-- `list[dict[str, int]]` against `[{"a": "x"}, {"b": None, 3: 4}]`: two bad values and one bad key -/
+def tLD : Ty := .iter .list true (.dict (.scalar "str") (.scalar "int"))
+def dLD : Val := .list [.dict [(.str "a", .str "x")], .dict [(.str "b", .none), (.int 3, .int 4)]]
+
+example : trailWf dLD = true := by
+  simp [trailWf, trailWfL, trailWfKV, trailWfP, trailKeysOk, dLD, Val.pyEq]
+
+/-- ALL: nested groups with relative trails … -/
+example : load exW ⟨.all, true⟩ 3 tLD dLD =
+    .err (LErr.agg [
+      (LErr.agg [(LErr.leaf "TypeLoadError" (.str "x")).push (.key (.str "a"))]).push (.idx 0),
+      (LErr.agg [(LErr.leaf "TypeLoadError" .none).push (.key (.str "b")),
+                 (LErr.leaf "TypeLoadError" (.int 3)).push (.itemKey (.int 3))]).push (.idx 1)]) := rfl
+
+/-- … report exactly the three faults with absolute trails and the offending inputs -/
+example : ∃ e, load exW ⟨.all, true⟩ 3 tLD dLD = .err e ∧
+    (reports e).map (fun p => (p.1, p.2.cls, p.2.input)) =
+      [([.idx 0, .key (.str "a")], "TypeLoadError", some (.str "x")),
+       ([.idx 1, .key (.str "b")], "TypeLoadError", some .none),
+       ([.idx 1, .itemKey (.int 3)], "TypeLoadError", some (.int 3))] := ⟨_, rfl, rfl⟩
+
+example : Faults exW true 3 tLD dLD =
+    [([.idx 0, .key (.str "a")], "TypeLoadError"),
+     ([.idx 1, .key (.str "b")], "TypeLoadError"),
+     ([.idx 1, .itemKey (.int 3)], "TypeLoadError")] := rfl
+
+example : follow dLD [.idx 0, .key (.str "a")] = some (.str "x") := by
+  simp [follow, trailStep, dLD, Val.iterElems, Val.lookup, Val.pyEq]
+example : follow dLD [.idx 1, .key (.str "b")] = some .none := by
+  simp [follow, trailStep, dLD, Val.iterElems, Val.lookup, Val.pyEq]
+example : follow dLD [.idx 1, .itemKey (.int 3)] = some (.int 3) := by
+  simp [follow, trailStep, dLD, Val.iterElems, Val.pyEq]
+
+/-- FIRST: one report, the first fault, with its full trail -/
+example : ∃ e, load exW ⟨.first, true⟩ 3 tLD dLD = .err e ∧
+    (reports e).map (fun p => (p.1, p.2.cls, p.2.input)) =
+      [([.idx 0, .key (.str "a")], "TypeLoadError", some (.str "x"))] := ⟨_, rfl, rfl⟩
+
+/-- DISABLE: the bare leaf (value before key: `{"b": None, 3: 4}` alone reports the value) -/
+example : load exW ⟨.disable, true⟩ 3 tLD dLD = .err (LErr.leaf "TypeLoadError" (.str "x")) := rfl
+
+/-- a model: a bad field and a bad element of a list field -/
+def dP : Val := .dict [(.str "x", .str "bad"), (.str "tags", .list [.str "ok", .int 5])]
+
+example : load exW ⟨.all, true⟩ 4 (.model "P") dP = .err (LErr.agg [
+      (LErr.leaf "TypeLoadError" (.str "bad")).push (.key (.str "x")),
+      (LErr.agg [(LErr.leaf "TypeLoadError" (.int 5)).push (.idx 1)]).push (.key (.str "tags"))]) := by
+  simp [load, exW, dP, loadModel, modelItems, Val.lookup, Val.pyEq, seqMode, sweepAll,
+    Sweep.finish, bindO, loadIter, strictExcluded, Val.isMapping, Val.isStr, Val.iterElems,
+    idxItems, LErr.pushO]
+
+example : (reports (LErr.agg [
+      (LErr.leaf "TypeLoadError" (.str "bad")).push (.key (.str "x")),
+      (LErr.agg [(LErr.leaf "TypeLoadError" (.int 5)).push (.idx 1)]).push (.key (.str "tags"))])).map
+        (fun p => (p.1, p.2.cls, p.2.input)) =
+    [([.key (.str "x")], "TypeLoadError", some (.str "bad")),
+     ([.key (.str "tags"), .idx 1], "TypeLoadError", some (.int 5))] := rfl
+
+example : follow dP [.key (.str "tags"), .idx 1] = some (.int 5) := by
+  simp [follow, trailStep, dP, Val.iterElems, Val.lookup, Val.pyEq]
+
+/-- a missing required field is reported at the model's own position, next to the
+    faults of the present fields -/
+def dP2 : Val := .dict [(.str "tags", .list [.int 1])]
+
+example : load exW ⟨.all, true⟩ 4 (.model "P") dP2 = .err (LErr.agg [
+      LErr.leafD "NoRequiredFieldsLoadError" dP2 ["x"],
+      (LErr.agg [(LErr.leaf "TypeLoadError" (.int 1)).push (.idx 0)]).push (.key (.str "tags"))]) := by
+  simp [load, exW, dP2, loadModel, modelItems, missingRequired, Val.lookup, Val.pyEq, seqMode,
+    sweepAll, Sweep.finish, bindO, loadIter, strictExcluded, Val.isMapping, Val.isStr,
+    Val.iterElems, idxItems, LErr.pushO]
+
+example : Faults exW true 4 (.model "P") dP2 =
+    [([], "NoRequiredFieldsLoadError"), ([.key (.str "tags"), .idx 0], "TypeLoadError")] := by
+  simp [Faults, exW, dP2, Val.lookup, Val.pyEq, Val.isMapping, Val.isStr, Val.iterElems, trailPre,
+    LErr.leaf, LErr.cls]
+
+/-- the tuple loader's arity errors show `tuple(data)`: the one looseness of `trail_exact` -/
+example : load exW ⟨.all, true⟩ 2 (.tuple [.scalar "int", .scalar "int"]) (.list [.int 1]) =
+    .err (LErr.leaf "NoRequiredItemsLoadError" (.tuple [.int 1])) := rfl
+
+/-- `Optional[int]` against a string: ONE report (the union) whose alternatives explain it -/
+example : load exW ⟨.all, true⟩ 2 (.union [.scalar "int", .scalar "none"] ["int", "NoneType"]) (.str "x") =
+    .err (LErr.union [LErr.leaf "TypeLoadError" (.str "x"), LErr.leaf "TypeLoadError" (.str "x")]) := rfl
+example : Faults exW true 2 (.union [.scalar "int", .scalar "none"] ["int", "NoneType"]) (.str "x") =
+    [([], "UnionLoadError")] := rfl
+
+/-- the dict invariant is needed: `{1: "a", True: 5}` is not a Python dict (`1 == True`);
+    the key error of the second pair carries `ItemKey(True)`, which a reader resolves to
+    the first key -/
+def dBad : Val := .dict [(.int 1, .int 0), (.bool true, .int 5)]
+example : trailWf dBad = false := by
+  simp [trailWf, trailWfKV, trailWfP, trailKeysOk, dBad, Val.pyEq]
+example : ∃ e, load exW ⟨.all, true⟩ 2 (.dict (.scalar "int") (.scalar "int")) dBad = .err e ∧
+    (reports e).map (fun p => (p.1, p.2.cls, p.2.input)) =
+      [([.itemKey (.bool true)], "TypeLoadError", some (.bool true))] := ⟨_, rfl, rfl⟩
+example : follow dBad [.itemKey (.bool true)] = some (.int 1) := by
+  simp [follow, trailStep, dBad, Val.pyEq]
+
 end Adaptix.Morph.C05
